@@ -95,3 +95,97 @@ func init() {
 		return mergeItems(rankItems(1, 1, 6, map[string]int64{"nilconf": 0}))
 	})
 }
+
+// extendVia adds provenance variants (harness parameter "via", see mk in harness lib.go): a sample of
+// the harness's small quick-tier items is repeated with operands that were used before (7) or that
+// other operations produced from used tensors (1..6).
+func extendVia(check, harness string, quickVias, thoroughVias []int64, maxPerVia int) {
+	c := findCheck(check)
+	if c == nil {
+		panic("extendVia: no check " + check)
+	}
+	small := func(it Item) bool {
+		for _, k := range []string{"rank", "ra", "rb", "maxrank", "maxrank2"} {
+			if v, ok := it.P[k]; ok && v > 2 {
+				return false
+			}
+		}
+		if v, ok := it.P["maxdim"]; ok && v > 3 {
+			return false
+		}
+		return true
+	}
+	for i := range c.Harnesses {
+		if c.Harnesses[i].Name != harness {
+			continue
+		}
+		base := c.Harnesses[i].Items
+		c.Harnesses[i].Items = func(tier string) []Item {
+			its := base(tier)
+			var pool []Item
+			for _, it := range base("quick") {
+				if small(it) {
+					pool = append(pool, it)
+				}
+			}
+			vias, per := quickVias, maxPerVia
+			if tier == "thorough" {
+				vias, per = thoroughVias, 2*maxPerVia
+			}
+			if len(pool) == 0 {
+				return its
+			}
+			for _, v := range vias {
+				n := per
+				if n > len(pool) {
+					n = len(pool)
+				}
+				var pick []Item
+				for j := 0; j < n; j++ {
+					pick = append(pick, pool[(j*len(pool)/n+int(v))%len(pool)])
+				}
+				its = append(its, withP(pick, map[string]int64{"via": v})...)
+			}
+			return its
+		}
+		return
+	}
+	panic("extendVia: no harness " + harness)
+}
+
+func init() {
+	q, t := []int64{1, 7}, []int64{1, 2, 3, 4, 5, 6, 7}
+	for _, h := range []string{"C03_unary", "C03_binary", "C03_cmp"} {
+		extendVia("C03", h, q, t, 8)
+	}
+	// operand pairs that were used together before (MatMul, arithmetic), all provenances
+	pairVia := func(vias []int64) func() []Item {
+		return func() []Item {
+			var out []Item
+			for _, v := range vias {
+				out = append(out, withP(sItems("op", []string{"Add", "Div"}, mergeItems(pairItems(2, 2, 2), pairItems(1, 1, 3))), map[string]int64{"via": v})...)
+			}
+			return out
+		}
+	}
+	extend("C03", "C03_binary", pairVia(q), pairVia(t))
+	for _, h := range []string{"C04_matmul", "C04_dot", "C04_transpose", "C04_identities"} {
+		extendVia("C04", h, q, t, 6)
+	}
+	for _, h := range []string{"C05_full", "C05_along"} {
+		extendVia("C05", h, []int64{1, 2, 7}, t, 8)
+	}
+	for _, h := range findCheck("C06").Harnesses {
+		extendVia("C06", h.Name, q, t, 4)
+	}
+	for _, h := range []string{"C02_unary", "C02_binary", "C02_reduce", "C02_slice", "C02_patch", "C02_concat", "C02_dot", "C02_matmul", "C02_shape"} {
+		extendVia("C02", h, q, t, 4)
+	}
+	for _, h := range []string{"C07_explicit", "C07_implicit", "C07_dot", "C07_matmul"} {
+		extendVia("C07", h, q, t, 3)
+	}
+	extendVia("C12", "C12_loss", q, t, 4)
+	extendVia("C13", "C13_lossgrad", q, t, 3)
+	extendVia("C14", "C14_act", q, t, 4)
+	extendVia("C15", "C15_actgrad", q, t, 3)
+}
